@@ -90,3 +90,12 @@ def lib_records(cases, res, accepted_status):
             obs = {'status': st, 'wrote': False, 'diag': False}
         recs.append({'id': c['id'], 'obs': obs})
     return recs
+
+
+def stable(detail):
+    """a sanitizer headline reduced to file:line and message, without directories (stable across checkouts)"""
+    d = detail.split(' in ')[0]
+    d = re.sub(r'(/[^\s:]*/)([^/\s:]+\.(?:hpp|cpp|h))', r'\2', d)
+    d = re.sub(r'0x[0-9a-f]+', '0x', d)
+    d = re.sub(r'==\d+==', '', d)
+    return d.strip()[:100]
